@@ -4,18 +4,20 @@ from xrlcheck import verdict
 
 
 def run(ctx):
-    configs = ["A", "B", "N"]      # N: configuration A built as meson's release build type does (NDEBUG defined, for the table generator too);
-    # B: only ElectronConfig differs (the accessor fed by the Kissel table); cheap enough for the quick tier
+    # B: the Kissel table regenerated (every accessor again: the generator may let one table leak into another);
+    # N: configuration A built as meson's release build type does (NDEBUG defined, for the table generator too);
+    # D: configuration A without optimisation, meson's default build type
+    configs = ["A", "B", "N", "D"]
     cells = 0; nontrivial = 0
     for cfgname in configs:
-        b = ctx.build("ndebug" if cfgname == "N" else "plain", "A" if cfgname == "N" else cfgname)
+        b = ctx.build({"N": "ndebug", "D": "debug"}.get(cfgname, "plain"), "B" if cfgname == "B" else "A")
         exe = ctx.harness(b)
         facts = ctx.facts(b, ["macros", "names", "scalar", "compton", "kissel"], sub="facts" + cfgname)
         if cfgname == "A":
             # specification side: mechanism (name tables, generator, accessors) => property, on the real facts
             ctx.tlc_must_pass("MC_C01", env={"XRL_FACTS": facts}, workers=1)
         tr = os.path.join(ctx.scratch, "c01%s.ndjson" % cfgname)
-        args = ["c01"] if cfgname in ("A", "N") else ["c01", "-3", "125", "ElectronConfig"]
+        args = ["c01"]
         ctx.run_harness(exe, args, tr)
         for line in open(tr):
             ev = json.loads(line); cells += len(ev["ok"]); nontrivial += sum(ev["ok"])
